@@ -59,6 +59,9 @@ def famsig(fam, st):
     f0 = fam.split("/")[0]
     if f0 in ("interpreter-test", "bytecode-test"):
         return f0 + ":" + hashlib.sha1(" ; ".join(st).encode("utf8")).hexdigest()[:8]
+    if f0.startswith("const-"):
+        k = fam.split("/")[1]
+        return f0 + "/" + (k if k in ("f64", "r64", "c64", "bool", "string") else "typed-literal-kinds")
     if "/" in fam:
         return f0 + ("/f64" if fam.endswith("/f64") else ("/r64" if fam.endswith("/r64") else "/typed-literal-kinds"))
     return fam
@@ -151,8 +154,37 @@ def blackbox_programs(tier, seed):
               ("convert", ["x<u8> := 200", "y<u16> := x"]), ("atom", [":a == :a"]), ("rational", ["1/2 + 1/3"]), ("empty", ["_"])]
     return progs
 
+def const_lit(kind, fields):
+    if kind == "c64": return f"{fields[0]}+{fields[1]}i"
+    if kind == "r64": return f"{fields[0]}/{fields[1]}"
+    if kind == "bool": return "true" if (fields[0] // 10) % 2 == 1 else "false"
+    if kind == "string": return f'"s{fields[0]}"'
+    if kind == "f64": return f"{fields[0]}.5"
+    return render.scalar_lit(('num', kind, F(fields[0])))
+
+def const_programs(rep):
+    """MechConst universe: every element kind in every container, every field of every element different"""
+    t = tlc.run("MC_C06k", "MC_C06k.cfg", workers=4, timeout=600)
+    if t.violations or not t.ok:
+        rep.fail("C06/model", "TLC reported a violation on MechConst: " + "; ".join(t.errors[:3]), {"log": t.log})
+    progs = []
+    for cs in sorted(t.cases, key=lambda c: (c["cont"], c["kind"])):
+        k, ct = cs["kind"], cs["cont"]
+        L = [const_lit(k, e) for e in cs["elems"]]
+        kk = {"c64": "c64", "r64": "r64"}.get(k, k)
+        text = {"scalar": lambda: L[0], "row": lambda: f"[{L[0]} {L[1]} {L[2]}]", "col": lambda: f"[{L[0]}; {L[1]}; {L[2]}]",
+                "mat": lambda: f"[{L[0]} {L[1]}; {L[2]} {L[3]}]", "set": lambda: "{" + ", ".join(L) + "}", "tuple": lambda: f"({L[0]}, {L[1]})",
+                "record": lambda: "{a: " + L[0] + ", b: " + L[1] + "}", "table": lambda: f"| a<{kk}> b<{kk}> | {L[0]} {L[1]} | {L[2]} {L[3]} |",
+                "map": lambda: '{"k1": ' + L[0] + ', "k2": ' + L[1] + "}"}[ct]()
+        progs.append((f"const-{ct}/{k}", [f"x := {text}"]))
+        progs.append((f"const-{ct}/{k}", [f"x := {text}", "x"]))
+    return progs, t
+
 def blackbox_family(rep, tier, seed):
     progs = blackbox_programs(tier, seed)
+    cprogs, tk = const_programs(rep)
+    rep.cov["const_universe_cases"] = len(cprogs) // 2
+    progs += cprogs
     reqs = [{"id": i, "mode": "bytecode", "stmts": st} for i, (_, st) in enumerate(progs)]
     outs = execpool.run_requests(reqs, nworkers=16, timeout=25, mem_limit_mb=4096)
     tally = collections.Counter()
@@ -171,7 +203,7 @@ def blackbox_family(rep, tier, seed):
         comp = resp.get("compile", {})
         if comp.get("r") == "panic":
             rep.fail(f"C06/compile-panics/{fam}", f"{st}: compile panics: {comp.get('msg')}", replay); continue
-        must = fam0.split("/")[0] in ("scalar-op", "matrix-op", "index", "index-assign", "range", "opassign", "logic", "string", "slice", "mask", "neg", "bytecode-test")
+        must = fam0.split("/")[0] in ("const-scalar", "const-row", "const-col", "const-mat", "scalar-op", "matrix-op", "index", "index-assign", "range", "opassign", "logic", "string", "slice", "mask", "neg", "bytecode-test")
         if comp.get("r") != "ok":
             if must: rep.fail(f"C06/must-run/compile-error/{fam}", f"{st}: compile error {comp.get('class')} for a program of the must-run class", replay)
             else: tally["compile_error(allowed)"] += 1
